@@ -62,6 +62,8 @@ def family(prop, tier, exe, wd):
     pred = {"C03": F.no_abs, "C04": F.no_abs, "C07": F.has_norep, "C09": F.has_special, "C08": F.has_abs}.get(prop)
     jobs += F.modifier_table(pred)
     jobs += fancy_ref_jobs(pred, 40 if not thorough else 400)
+    import e3
+    jobs += F.per_key([k["name"] for k in e3.tool_keys(exe, wd)], pred, 2 if not thorough else 3)
     return jobs
 
 
